@@ -85,12 +85,16 @@ def caPool (o : Opts) : Option (List String) :=
   | .ok b => parseCAs b
   | _ => none
 
-theorem addCa_ok {o : Opts} {conf c : TlsCfg} (hroot : conf.rootCAs = none) (hcca : conf.clientCAs = none)
+/- `hseed`: the pool starts empty (regenerated shape of addCaCertificates, `SA.Gen.caPoolStartsEmpty`); supplied by
+   `C05_ca_pool_shape` in SA.Props.C05, so that a change of the shape breaks the theorems that rest on it and
+   nothing else -/
+theorem addCa_ok (hseed : poolSeed = []) {o : Opts} {conf c : TlsCfg} (hroot : conf.rootCAs = none) (hcca : conf.clientCAs = none)
     (h : addCaCertificates o conf = .ok c) :
     c.rootCAs = caPool o ∧ c.clientCAs = caPool o ∧ c.certs = conf.certs ∧
       c.insecureSkipVerify = conf.insecureSkipVerify ∧ c.clientAuth = conf.clientAuth ∧
       c.serverName = conf.serverName := by
-  unfold addCaCertificates at h
+  unfold addCaCertificates addCaCertificatesFrom at h
+  rw [hseed] at h
   unfold caPool
   cases hr : readSrc o.ca .cafile with
   | err e => simp [hr] at h
@@ -109,8 +113,48 @@ theorem addCa_ok {o : Opts} {conf c : TlsCfg} (hroot : conf.rootCAs = none) (hcc
         cases h
         simp [hp]
 
+/-- whatever the pool starts from, addCaCertificates touches nothing but the two pools -/
+theorem addCa_keeps {o : Opts} {conf c : TlsCfg} (h : addCaCertificates o conf = .ok c) :
+    c.certs = conf.certs ∧ c.insecureSkipVerify = conf.insecureSkipVerify ∧ c.clientAuth = conf.clientAuth ∧
+      c.serverName = conf.serverName := by
+  unfold addCaCertificates addCaCertificatesFrom at h
+  cases hr : readSrc o.ca .cafile with
+  | err e => simp [hr] at h
+  | panic => simp [hr] at h
+  | ok b =>
+    simp only [hr] at h
+    by_cases hb : b = .nil
+    · simp only [hb, if_true] at h
+      cases h
+      simp
+    · simp only [hb, if_false] at h
+      cases hp : parseCAs b with
+      | none => simp [hp] at h
+      | some pool =>
+        simp only [hp] at h
+        cases h
+        simp
+
+/-- the client config leaves cert.go unnamed, whatever the pool holds -/
+theorem client_serverName_nil {o : Opts} {c : TlsCfg} (h : clientGetTlsConfig o = .ok c) : c.serverName = [] := by
+  unfold clientGetTlsConfig at h
+  cases hc : configGetTlsConfig o with
+  | err e => simp [hc] at h
+  | panic => simp [hc] at h
+  | ok conf =>
+    have hn : conf.serverName = [] := by
+      unfold configGetTlsConfig at hc
+      cases hk : getX509KeyPair o with
+      | err e => simp [hk] at hc
+      | panic => simp [hk] at hc
+      | ok crt =>
+        simp only [hk] at hc
+        exact (addCa_keeps hc).2.2.2
+    simp only [hc] at h
+    cases hf : o.flag <;> simp [hf] at h <;> subst h <;> simp [hn]
+
 /-- everything Config.GetTlsConfig leaves in the config -/
-theorem config_ok {o : Opts} {c : TlsCfg} (h : configGetTlsConfig o = .ok c) :
+theorem config_ok (hseed : poolSeed = []) {o : Opts} {c : TlsCfg} (h : configGetTlsConfig o = .ok c) :
     c.rootCAs = caPool o ∧ c.clientCAs = caPool o ∧ c.insecureSkipVerify = false ∧
       c.clientAuth = .noClientCert ∧ c.serverName = [] := by
   unfold configGetTlsConfig at h
@@ -119,10 +163,10 @@ theorem config_ok {o : Opts} {c : TlsCfg} (h : configGetTlsConfig o = .ok c) :
   | panic => simp [hk] at h
   | ok crt =>
     simp only [hk] at h
-    have := addCa_ok (conf := { certs := crt.toList }) rfl rfl h
+    have := addCa_ok hseed (conf := { certs := crt.toList }) rfl rfl h
     simp [this]
 
-theorem client_ok {o : Opts} {c : TlsCfg} (h : clientGetTlsConfig o = .ok c) :
+theorem client_ok (hseed : poolSeed = []) {o : Opts} {c : TlsCfg} (h : clientGetTlsConfig o = .ok c) :
     c.rootCAs = caPool o ∧ c.insecureSkipVerify = o.flag ∧ c.serverName = [] ∧
       ∃ c0, configGetTlsConfig o = .ok c0 ∧ c.certs = c0.certs := by
   unfold clientGetTlsConfig at h
@@ -130,11 +174,11 @@ theorem client_ok {o : Opts} {c : TlsCfg} (h : clientGetTlsConfig o = .ok c) :
   | err e => simp [hc] at h
   | panic => simp [hc] at h
   | ok conf =>
-    have := config_ok hc
+    have := config_ok hseed hc
     simp only [hc] at h
     cases hf : o.flag <;> simp [hf] at h <;> subst h <;> simp [this]
 
-theorem server_ok {g : Bool} {o : Opts} {c : TlsCfg} (h : serverGetTlsConfig g o = .ok c) :
+theorem server_ok (hseed : poolSeed = []) {g : Bool} {o : Opts} {c : TlsCfg} (h : serverGetTlsConfig g o = .ok c) :
     ∃ c0, configGetTlsConfig o = .ok c0 ∧ c.certs = c0.certs ∧ c.clientCAs = caPool o ∧
       c.clientAuth = (if g && o.flag then .requireAndVerifyClientCert else .noClientCert) := by
   unfold serverGetTlsConfig at h
@@ -144,7 +188,7 @@ theorem server_ok {g : Bool} {o : Opts} {c : TlsCfg} (h : serverGetTlsConfig g o
     split at h <;> cases h
   | panic => simp [hc] at h
   | ok conf =>
-    have := config_ok hc
+    have := config_ok hseed hc
     simp only [hc] at h
     refine ⟨conf, rfl, ?_⟩
     cases hg : (g && o.flag) <;> simp [hg] at h <;> subst h <;> simp [this]
@@ -219,7 +263,7 @@ theorem alone_est (X : X509) (F : Facts) (o : Opts) (a : Attempt) :
   | err e => cases a.asks F <;> simp [sessionWith]
   | panic => cases a.asks F <;> simp [sessionWith]
   | ok c =>
-    have hn := (client_ok hc).2.2.1
+    have hn := client_serverName_nil hc
     have hk := kindWrites_fresh F a.kind a.hostport a.resolved c hn
     cases hasks : a.asks F with
     | true =>
